@@ -710,6 +710,39 @@ def build_sv(nch, syms):
     return S, 0.5 * np.arange(L)
 
 
+def judge_cmif(t, case, route, S, freq, nch, syms, nSv, freqlim, ax, ok=True):
+    """one curve per requested singular value over the whole grid at its decibel level, nothing else; t: the tally with the class-key
+    suffix / message prefix already applied (_Marked). -> (curves, number of curves required, ok)"""
+    marks, bars, curves = read_axes(ax)
+    n = nch if nSv == "all" else int(nSv)
+    ref = S[0, 0, :].max()
+    want = [10 * np.log10(S[k, k, :] / ref) for k in range(n)]
+    if len(curves) != n:
+        ok = False
+        t.violation(f"{NAME[route]}:curve-count", f"{NAME[route]}: {len(curves)} curves drawn for nSv={nSv} on {nch} channels (required {n}); lines {syms}", case)
+    else:
+        free = list(range(len(curves)))
+        for k, w in enumerate(want):
+            hit = [j for j in free if curves[j].shape == (len(freq), 2) and np.array_equal(curves[j][:, 0], freq)
+                   and np.allclose(curves[j][:, 1], w, rtol=1e-12, atol=1e-12)]
+            if not hit:
+                ok = False
+                got = [np.round(curves[j][:, 1], 4).tolist() for j in free][:2]
+                t.violation(f"{NAME[route]}:curve-values:{'first' if k == 0 else 'higher'}",
+                            f"{NAME[route]}: no curve over the whole grid equals 10*log10(S_{k}/max S_0) = {np.round(w, 4).tolist()} "
+                            f"(nSv={nSv}, {nch} channels, lines {syms}); unmatched curves start {got}", case)
+                break
+            free.remove(hit[0])
+            t.err("cmif_dB", np.max(np.abs(curves[hit[0]][:, 1] - w)))
+    if marks["stable"] or marks["unstable"] or marks["other"]:
+        ok = False
+        t.violation(f"{NAME[route]}:unexpected-markers", f"{NAME[route]}: marker artists on a singular-value plot", case)
+    if freqlim is not None and tuple(float(v) for v in ax.get_xlim()) != tuple(float(v) for v in freqlim):
+        ok = False
+        t.violation(f"{NAME[route]}:xlim", f"{NAME[route]}: x-limits {ax.get_xlim()} differ from the requested {freqlim}", case)
+    return curves, n, ok
+
+
 def run_cmif_case(t, case):
     import matplotlib.pyplot as plt
     from pyoma2.functions import plot
@@ -746,34 +779,8 @@ def run_cmif_case(t, case):
         t.transitions += 1
         t.validated += 1
         ax, ok = judge_place(t, case, route, where, form, ax, ax_s, staged, pre=pre)      # the supplied axes are the judged ones
-        marks, bars, curves = read_axes(ax)
-        n = nch if nSv == "all" else int(nSv)
-        ref = S[0, 0, :].max()
-        want = [10 * np.log10(S[k, k, :] / ref) for k in range(n)]
         t = _Marked(t, sfx, pre)
-        if len(curves) != n:
-            ok = False
-            t.violation(f"{NAME[route]}:curve-count", f"{NAME[route]}: {len(curves)} curves drawn for nSv={nSv} on {nch} channels (required {n}); lines {syms}", case)
-        else:
-            free = list(range(len(curves)))
-            for k, w in enumerate(want):
-                hit = [j for j in free if curves[j].shape == (len(freq), 2) and np.array_equal(curves[j][:, 0], freq)
-                       and np.allclose(curves[j][:, 1], w, rtol=1e-12, atol=1e-12)]
-                if not hit:
-                    ok = False
-                    got = [np.round(curves[j][:, 1], 4).tolist() for j in free][:2]
-                    t.violation(f"{NAME[route]}:curve-values:{'first' if k == 0 else 'higher'}",
-                                f"{NAME[route]}: no curve over the whole grid equals 10*log10(S_{k}/max S_0) = {np.round(w, 4).tolist()} "
-                                f"(nSv={nSv}, {nch} channels, lines {syms}); unmatched curves start {got}", case)
-                    break
-                free.remove(hit[0])
-                t.err("cmif_dB", np.max(np.abs(curves[hit[0]][:, 1] - w)))
-        if marks["stable"] or marks["unstable"] or marks["other"]:
-            ok = False
-            t.violation(f"{NAME[route]}:unexpected-markers", f"{NAME[route]}: marker artists on a singular-value plot", case)
-        if freqlim is not None and tuple(float(v) for v in ax.get_xlim()) != tuple(float(v) for v in freqlim):
-            ok = False
-            t.violation(f"{NAME[route]}:xlim", f"{NAME[route]}: x-limits {ax.get_xlim()} differ from the requested {freqlim}", case)
+        curves, n, ok = judge_cmif(t, case, route, S, freq, nch, syms, nSv, freqlim, ax, ok)
         if ok:
             t.outcomes[f"agree:{route}"] += 1
             t.outcomes["cmif:all" if nSv == "all" else "cmif:subset"] += 1
@@ -789,6 +796,259 @@ def run_cmif_case(t, case):
     finally:
         if fig is not None:
             plt.close(fig)
+        plt.close("all")
+
+
+# ---------------------------------------------------------------------------------------------
+# two charts alive at once: chart A drawn and KEPT (nothing closed), chart B drawn, then both judged against their own tables
+PARTNERS = ("same-route", "other-side", "other-class", "other-chart")
+PARTNER_TEXT = {"same-route": "another table / singular-value array through the same route (class routes: another algorithm object of the same class)",
+                "other-side": "another table / singular-value array through the other side of the same chart kind (plot function <-> class method)",
+                "other-class": "another table through the plot method of an algorithm object of another class (same chart kind)",
+                "other-chart": "the same tables (same arrays / same algorithm object) as the other chart kind (stabilisation <-> frequency-damping)"}
+_CLASS_RING = ("ssi", "pl", "ssidatms", "plms")
+ALIVE_WHERES = ("own", "current", "unmanaged")        # fig= and ax= supplied (call form 'fig+ax') where a route takes axes
+CMIF_ROUTES = ("cmif", "fdd.cmif")
+
+
+def partner_route(route, partner):
+    """the route of the second chart; None where the family has no such partner (singular-value plots: one class, one chart kind)"""
+    if partner == "same-route":
+        return route
+    if route in CMIF_ROUTES:
+        return {"cmif": "fdd.cmif", "fdd.cmif": "cmif"}[route] if partner == "other-side" else None
+    fam, _dot, what = route.rpartition(".")
+    if partner == "other-side":
+        return what if fam else "ssi." + what
+    if partner == "other-class":
+        return ("plms" if not fam else _CLASS_RING[(_CLASS_RING.index(fam) + 1) % len(_CLASS_RING)]) + "." + what
+    if partner == "other-chart":
+        other = "cluster" if what == "stab" else "stab"
+        return fam + "." + other if fam else other
+    raise ValueError(partner)
+
+
+class _Recase(_Marked):
+    """_Marked, and every violation carries the whole two-chart case (the judging routines are handed a view of one chart)"""
+
+    def __init__(self, t, case, sfx="", pre=""):
+        super().__init__(t, sfx, pre)
+        self.__dict__["_case"] = case
+
+    def violation(self, key, msg, _view):
+        self._t.violation(key + self._sfx, self._pre + msg, self._case)
+
+
+class _Chart:
+    """one of the two charts: what is drawn (route, data, options), and after draw(): what came back"""
+
+    fig = ax = ax_s = None
+    staged = ()
+
+    def draw(self):
+        self.fig, self.ax = self._draw()
+        return self
+
+    @property
+    def judged(self):
+        return self.ax if self.ax_s is None else self.ax_s
+
+
+def _table_chart(route, R, C, cells, df, hide, freqlim, with_cov, where, share=None):
+    """share: a chart already set up; this one draws the SAME arrays / the SAME algorithm object (as the other chart kind)"""
+    ch = _Chart()
+    ch.kind, ch.route, ch.where, ch.hide, ch.freqlim = "table", route, where, hide, freqlim
+    ch.view = {"R": R, "C": C, "cells": cells}
+    Fn, Xi, Phi, Lab, cov = build(R, C, cells, df=df)
+    ch.ref = (Fn, Xi, Phi, Lab, cov if with_cov else None)
+    if share is None:
+        ch.arrays = (Fn.copy(), Xi.copy(), Phi.copy(), Lab.copy(), cov.copy() if with_cov else None)
+        ch.drawer = make_drawer(route, *ch.arrays, 0, 1, where, "fig+ax")
+    elif share.drawer.alg is None:
+        ch.arrays = share.arrays
+        ch.drawer = make_drawer(route, *ch.arrays, 0, 1, where, "fig+ax")
+    else:
+        ch.arrays = share.arrays
+        a = share.drawer.alg
+        meth = a.plot_stab if route.endswith(".stab") else a.plot_cluster
+
+        def drawer(hide, freqlim):
+            return meth(freqlim=freqlim, hide_poles=hide)
+
+        drawer.handed, drawer.alg, drawer.supplied = share.drawer.handed, a, (None, [])
+        ch.drawer = drawer
+
+    def _draw():
+        out = ch.drawer(hide, freqlim)
+        ch.ax_s, ch.staged = ch.drawer.supplied
+        return out
+
+    ch._draw = _draw
+    ch.text = f"{NAME[route]}(hide_poles={hide}, freqlim={freqlim}) of the {R}x{C} table cells={cells}"
+    return ch
+
+
+def _cmif_chart(route, nch, syms, nSv, freqlim, where):
+    from pyoma2.functions import plot
+
+    ch = _Chart()
+    ch.kind, ch.route, ch.where, ch.freqlim = "cmif", route, where, freqlim
+    ch.nch, ch.syms, ch.nSv = nch, syms, nSv
+    S, freq = build_sv(nch, syms)
+    ch.ref = (S, freq)
+    if route == "fdd.cmif":
+        from pyoma2.algorithms import FDD
+        from pyoma2.algorithms.data.result import FDDResult
+
+        a = FDD(name="f", nxseg=64)
+        a._set_data(np.zeros((10, nch)), 20.0)
+        a.result = FDDResult(freq=freq.copy(), Sy=np.zeros((nch, nch, len(freq))), S_val=S.copy(), S_vec=np.zeros((nch, nch, len(freq))))
+
+    def _draw():
+        kw, ch.ax_s, ch.staged = supply_kw(where, "fig+ax")
+        if route == "cmif":
+            return plot.CMIF_plot(S.copy(), freq.copy(), freqlim=freqlim, nSv=nSv, **kw)
+        return a.plot_CMIF(freqlim=freqlim, nSv=nSv)
+
+    ch._draw = _draw
+    ch.text = f"{NAME[route]}(nSv={nSv}, freqlim={freqlim}) of {nch} channels, lines {syms}"
+    return ch
+
+
+def _judge_chart(t, case, ch, sfx, pre):
+    """the chart's own tables / singular values against what its axes carry now; -> ok"""
+    if ch.kind == "table":
+        Fn, Xi, Phi, Lab, cov = ch.ref
+        _marks, ok = judge_table(_Recase(t, case), ch.view, ch.route, Fn, Xi, Phi, Lab, cov, ch.hide, ch.freqlim, ch.fig, ch.judged,
+                                 sfx=sfx, pre=pre)
+        return ok
+    S, freq = ch.ref
+    _curves, _n, ok = judge_cmif(_Recase(t, case, sfx, pre), {}, ch.route, S, freq, ch.nch, ch.syms, ch.nSv, ch.freqlim, ch.judged)
+    return ok
+
+
+def alive_charts(case):
+    """(chart A, chart B) of a two-alive case, set up and not yet drawn"""
+    route, partner = case["route"], case["partner"]
+    route_b = partner_route(route, partner)
+    fl = lambda v: None if v is None else tuple(v)  # noqa: E731
+    wa, wb = case.get("where", "own"), case.get("where_b", "own")
+    for r, w in ((route, wa), (route_b, wb)):
+        if w != "own" and not takes_axes(r):
+            raise ValueError(f"{r} takes no axes")
+    if route in CMIF_ROUTES:
+        A = _cmif_chart(route, case["nch"], case["syms"], case["nSv"], fl(case["freqlim"]), wa)
+        B = _cmif_chart(route_b, case["nch_b"], case["syms_b"], case["nSv_b"], fl(case["freqlim_b"]), wb)
+        return A, B
+    A = _table_chart(route, case["R"], case["C"], case["cells"], case["df"], case["hide"], fl(case["freqlim"]), case["cov"], wa)
+    if partner == "other-chart":
+        B = _table_chart(route_b, case["R"], case["C"], case["cells"], case["df"], case["hide_b"], fl(case["freqlim_b"]), case["cov"], wb, share=A)
+    else:
+        B = _table_chart(route_b, case["R_b"], case["C_b"], case["cells_b"], case["df_b"], case["hide_b"], fl(case["freqlim_b"]), case["cov"], wb)
+    return A, B
+
+
+def run_alive_case(t, case):
+    import matplotlib.pyplot as plt
+
+    route, partner = case["route"], case["partner"]
+    route_b = partner_route(route, partner)
+    t.states += 1
+    t.evaluations += 2
+    head = f"[two charts alive in one process, nothing closed in between; the second chart: {PARTNER_TEXT[partner]}] "
+    stage = "first"
+    A = B = None
+    try:
+        A, B = alive_charts(case)
+        before = snapshot(A.drawer) if A.kind == "table" else None
+        A.draw()
+        ok_a0 = _judge_chart(t, case, A, ":two-alive:first-before-second", head + f"FIRST chart, {A.text}, judged before the second one is drawn: ")
+        stage = "second"
+        B.draw()
+    except Exception as e:
+        plt.close("all")
+        t.violation(f"raises:{type(e).__name__}:{NAME[route if stage == 'first' else route_b]}:two-alive",
+                    f"{head}the {stage} drawing raised {type(e).__name__}: {e}; first chart {A.text if A else route}, second chart {B.text if B else route_b}", case)
+        return
+    try:
+        t.transitions += 1
+        t.validated += 1
+        ok = ok_a0
+        after = f"after the second chart, {B.text}, was drawn"
+        # ---- what was returned: two charts, two figures, two axes, each axes still part of its figure; supplied axes returned
+        for tag, ch in (("first", A), ("second", B)):
+            if ch.ax_s is not None and ch.ax is not ch.ax_s:
+                ok = False
+                t.violation(f"{NAME[ch.route]}:returned-axes-not-the-supplied:two-alive:{tag}",
+                            f"{head}{tag.upper()} chart, {ch.text}: the returned axes are not the supplied ones ({WHERE_TEXT[ch.where]})", case)
+        if A.fig is B.fig or A.judged is B.judged:
+            ok = False
+            t.violation(f"{NAME[route_b]}:second-chart-returned-on-{'figure' if A.judged is not B.judged else 'axes'}-of-the-first:two-alive",
+                        f"{head}the second chart, {B.text}, was returned on the same {'Figure' if A.judged is not B.judged else 'Axes'} object as the first "
+                        f"chart, {A.text}, which is still alive (first: {WHERE_TEXT[A.where]}; second: {WHERE_TEXT[B.where]})", case)
+        else:
+            t.outcomes["alive:two-figures-two-axes"] += 1
+        for tag, ch in (("first", A), ("second", B)):
+            if ch.judged.figure is not ch.fig or ch.judged not in ch.fig.axes:
+                ok = False
+                t.violation(f"{NAME[ch.route]}:returned-axes-no-longer-on-returned-figure:two-alive:{tag}",
+                            f"{head}{tag.upper()} chart, {ch.text}, {after}: its axes are not (any more) among the axes of its figure "
+                            f"(the figure has {len(ch.fig.axes)} axes)", case)
+            extra = [(i, artists_on(a)) for i, a in enumerate(ch.fig.axes) if a is not ch.judged and artists_on(a)]
+            if extra:
+                ok = False
+                t.violation(f"{NAME[ch.route]}:foreign-artists-on-returned-figure:two-alive:{tag}",
+                            f"{head}{tag.upper()} chart, {ch.text}, {after}: its figure carries other axes with artists {extra[:3]}", case)
+        # ---- the charts themselves
+        ok_a = _judge_chart(t, case, A, ":two-alive:first-after-second", head + f"FIRST chart, {A.text}, judged again {after}"
+                            f"{' (it was right before)' if ok_a0 else ''}: ")
+        ok_b = _judge_chart(t, case, B, ":two-alive:second", head + f"SECOND chart, {B.text}, drawn while the first one, {A.text}, is alive: ")
+        ok = ok and ok_a and ok_b
+        # ---- nothing anywhere else
+        keep = {id(A.judged), id(B.judged)}
+        seen, stray = set(keep), []
+        managed = [a for n in plt.get_fignums() for a in plt.figure(n).axes]
+        for a in list(A.staged) + list(B.staged) + managed:
+            if id(a) not in seen:
+                seen.add(id(a))
+                if artists_on(a):
+                    stray.append(artists_on(a))
+        if stray:
+            ok = False
+            t.violation(f"{NAME[route_b]}:artists-on-other-axes:two-alive", f"{head}artists on axes that belong to neither chart: {stray[:3]}; first chart "
+                        f"{A.text}, second chart {B.text}", case)
+        if before is not None:
+            ch = changed_tables(before, A.drawer)
+            t.outcomes["alive:tables-of-first-chart-changed(recorded)" if ch else "alive:tables-of-first-chart-unchanged"] += 1
+        if ok:
+            t.outcomes[f"alive:agree:{route}"] += 1
+            t.outcomes[f"alive:second-through:{route_b}"] += 1
+            t.outcomes[f"alive:partner={partner}"] += 1
+            t.outcomes[f"alive:axes={A.where}+{B.where}"] += 1
+            if A.kind == "table":
+                Fn, _Xi, _Phi, Lab, _cov = A.ref
+                if (Lab == 1).any():
+                    t.outcomes["alive:first-chart-shows-its-stable-poles-after-second"] += 1
+                if not A.hide and ((Lab != 1) & np.isfinite(Fn)).any():
+                    t.outcomes["alive:first-chart-shows-its-unstable-poles-after-second"] += 1
+                if partner == "other-chart" and "." in route:
+                    t.outcomes["alive:both-charts-of-one-algorithm-object"] += 1
+            else:
+                t.outcomes["alive:first-chart-shows-its-curves-after-second"] += 1
+        if A.kind == "table":
+            if set(case["cells"]) == set(SYM):
+                t.nontrivial.add(("alive", route, partner, case["R"], case["C"], case["cells"], case["hide"], bool(case["cov"]), A.where, B.where))
+        else:
+            S = A.ref[0]
+            n = A.nch if A.nSv == "all" else int(A.nSv)
+            pk0 = int(np.argmax(S[0, 0, :]))
+            if n >= 2 and any(int(np.argmax(S[k, k, :])) != pk0 for k in range(1, n)):
+                t.nontrivial.add(("alive", route, partner, A.nch, A.syms, str(A.nSv), A.where, B.where))
+        if case.get("sample"):
+            marks, _bars, curves = read_axes(A.judged)
+            t.sample({"case": {k: v for k, v in case.items() if k != "sample"}, "first_chart_after_second": {
+                "stable_markers": marks["stable"], "unstable_markers": marks["unstable"], "curves": len(curves)}})
+    finally:
         plt.close("all")
 
 
@@ -895,6 +1155,74 @@ def history_cases(thorough):
     return cases
 
 
+def alive_cases(thorough):
+    """Two charts alive at once. Every table route and both singular-value routes as the FIRST chart x every partner the family has x
+    6 banded tables (hide_poles / covariance / window of the second chart rotated with the table index in the quick tier, crossed in
+    the thorough tier); where a route takes axes, every combination of own / supplied-current / supplied-unmanaged for the two charts."""
+    cases = []
+    perms = ["".join(p) for p in itertools.permutations(SYM)]
+
+    def where_pairs(ra, rb):
+        wa = ALIVE_WHERES if takes_axes(ra) else ("own",)
+        wb = ALIVE_WHERES if takes_axes(rb) else ("own",)
+        return [(a, b) for a in wa for b in wb]
+
+    def table_case(route, partner, i, p, hide, hide_b, cv, fl_b, wa, wb):
+        c = {"kind": "alive", "route": route, "partner": partner, "R": 2, "C": 3, "cells": banded_cells(2, 3, p), "df": 0.1, "hide": hide,
+             "freqlim": None, "cov": bool(cv and has_cov(route)), "hide_b": hide_b, "freqlim_b": fl_b}
+        if partner != "other-chart":
+            # another table: every cell another symbol, other frequencies; every second one of another shape as well
+            Rb, Cb = ((2, 3), (3, 4))[i % 2]
+            c.update({"R_b": Rb, "C_b": Cb, "cells_b": banded_cells(Rb, Cb, p.translate(_ROT)), "df_b": 0.2})
+        if (wa, wb) != ("own", "own"):
+            c["where"], c["where_b"] = wa, wb
+        return c
+
+    for route in TABLE_ROUTES:
+        for partner in PARTNERS:
+            rb = partner_route(route, partner)
+            for wa, wb in where_pairs(route, rb):
+                own = (wa, wb) == ("own", "own")
+                for i, p in enumerate(perms):
+                    if not own and not thorough and i >= 2:
+                        continue                       # quick tier: supplied axes with the first two tables
+                    if thorough:
+                        combos = [(h, hb, cv, fl) for h in (True, False) for hb in (True, False) for cv in (False, True)[:1 + has_cov(route)]
+                                  for fl in (None, LO_HI)]
+                    else:
+                        h = i % 2 == 0
+                        combos = [(h, h if (i // 2) % 2 else not h, (i // 2) % 2 == 0, (None, LO_HI)[(i // 3) % 2])]
+                    for h, hb, cv, fl in combos:
+                        cases.append(table_case(route, partner, i, p, h, hb, cv, fl, wa, wb))
+    L = 6 if thorough else 4
+    allsyms = ["".join(p) for p in itertools.product("abc", repeat=L)]
+    for route in CMIF_ROUTES:
+        for partner in PARTNERS:
+            rb = partner_route(route, partner)
+            if rb is None:
+                continue
+            for wa, wb in where_pairs(route, rb):
+                own = (wa, wb) == ("own", "own")
+                for nch in (2, 3, 4):
+                    sub = allsyms[5::(7 if thorough else 29)] + ([("dcba" * L)[:L]] if nch >= 3 else [])
+                    if not own and not thorough:
+                        sub = sub[:1]
+                    for i, syms in enumerate(sub):
+                        if thorough:
+                            nsvs = ["all"] + list(range(1, nch))
+                        else:
+                            nsvs = [("all", 1)[i % 2]] + ([nch - 1] if nch > 2 else [])
+                        for nSv in nsvs:
+                            nch_b = 2 + (nch - 1) % 3                                      # 2 -> 3 -> 4 -> 2
+                            c = {"kind": "alive", "route": route, "partner": partner, "nch": nch, "syms": syms, "nSv": nSv, "freqlim": None,
+                                 "nch_b": nch_b, "syms_b": syms[::-1].translate(str.maketrans("abcd", "bcad")),
+                                 "nSv_b": 1 if nSv == "all" else "all", "freqlim_b": (None, (0.4, 1.2))[i % 2]}
+                            if not own:
+                                c["where"], c["where_b"] = wa, wb
+                            cases.append(c)
+    return cases
+
+
 def cmif_cases(thorough):
     L = 6 if thorough else 4
     cases = []
@@ -931,15 +1259,15 @@ def cmif_cases(thorough):
 def _work_history(chunk):
     t = Tally()
     for case in chunk:
-        t.merge(isolated(run_history_case, case))
+        t.merge(isolated(run_alive_case if case["kind"] == "alive" else run_history_case, case))
     return t
 
 
 def _work(chunk):
     t = Tally()
     for case in chunk:
-        if case["kind"] == "history":
-            raise RuntimeError("history cases are explored through _work_history (fresh child process per case)")
+        if case["kind"] in ("history", "alive"):
+            raise RuntimeError("history and two-alive cases are explored through _work_history (fresh child process per case)")
         if case["kind"] == "table":
             run_table_case(t, case)
         else:
@@ -977,6 +1305,11 @@ def explore(ctx):
     tc = table_cases(ctx.thorough)
     cc = cmif_cases(ctx.thorough)
     hc = history_cases(ctx.thorough)
+    ac = alive_cases(ctx.thorough)
+    for c in ac:                       # one written-out sample: both cluster diagrams of two algorithm objects alive
+        if c["route"] == "ssi.cluster" and c["partner"] == "other-class" and not c["hide"]:
+            c["sample"] = True
+            break
     for c in hc:                       # one written-out sample: first class-route history case with an order step above 1
         if c["route"] == "ssi.stab" and c["step"] > 1 and c["prior"] == "hide" and not c["hide"]:
             c["sample"] = True
@@ -1024,12 +1357,28 @@ def explore(ctx):
                     "cases": len(hc)},
         "cmif": {"channels": [2, 3, 4], "lines": 6 if ctx.thorough else 4, "symbols_per_line": LEVELS, "nSv": "all, 1..n-1",
                  "routes": ["plot.CMIF_plot", "FDD.plot_CMIF"], "freqlim": [None, [0.4, 1.2]]},
-        "figures": len(tc) + len(cc) + 2 * len(hc),
+        "two_charts_alive": {
+            "what": "chart A drawn and kept (nothing closed), chart B drawn, then A judged AGAIN against its own tables / singular values (it is also "
+                    "judged before B is drawn) and B against its own; the two returned figures and the two judged axes must be distinct objects, each "
+                    "judged axes must still belong to its returned figure, and no other axes may carry an artist; one child process per case, forked "
+                    "from a process that has not drawn any chart",
+            "first_chart_routes": sorted({NAME[c["route"]] for c in ac}), "second_chart": PARTNER_TEXT,
+            "second_chart_routes": sorted({NAME[partner_route(c["route"], c["partner"])] for c in ac}),
+            "tables": "first chart: 6 banded 2x3 tables; second chart: the table with every cell another symbol and other frequencies, 2x3 or 3x4 "
+                      "(alternating), or the same arrays / algorithm object as the other chart kind; hide_poles of both charts, covariance and a "
+                      "frequency window of the SECOND chart " + ("crossed" if ctx.thorough else "rotated with the table index"),
+            "singular_values": "2, 3, 4 channels (second chart: another channel count, other lines, the other nSv form)",
+            "where": {"values": list(ALIVE_WHERES), "pairs": {f"{a}+{b}": sum(1 for c in ac if (c.get("where", "own"), c.get("where_b", "own")) == (a, b))
+                                                               for a in ALIVE_WHERES for b in ALIVE_WHERES},
+                      "note": "supplied axes only where the route takes fig= / ax= (plot.stab_plot, plot.CMIF_plot); call form fig= and ax="},
+            "cases": {"tables": sum(1 for c in ac if "cells" in c), "singular_values": sum(1 for c in ac if "syms" in c)}},
+        "figures": len(tc) + len(cc) + 2 * len(hc) + 2 * len(ac),
     }
     # history cases FIRST: the pool is created here, from a process that has drawn nothing, and during this phase the workers only
     # fork one child per case, so every history case starts from the state of a fresh process (and leaves no state behind)
     _warm_matplotlib()
-    ctx.pmap(_work_history, [hc[i:i + 12] for i in range(0, len(hc), 12)], chunksize=1)
+    hac = hc + ac
+    ctx.pmap(_work_history, [hac[i:i + 12] for i in range(0, len(hac), 12)], chunksize=1)
     # interleave cheap and expensive cases; ~24 figures per item
     items = [tc[i:i + 24] for i in range(0, len(tc), 24)] + [cc[i:i + 96] for i in range(0, len(cc), 96)]
     ctx.pmap(_work, items, chunksize=1)
@@ -1039,6 +1388,12 @@ def explore(ctx):
     ctx.require(*[f"history:agree:{r}" for r in sorted({c["route"] for c in hc})], *[f"history:prior={p}" for p in PRIORS],
                 "history:step=1", "history:step>1", "history:same-algorithm-object", "history:marker-above-column-count",
                 "history:first-window-left-poles-outside", "history:tables-unchanged-by-first-drawing")
+    ctx.require(*[f"alive:agree:{r}" for r in TABLE_ROUTES + CMIF_ROUTES],
+                *[f"alive:second-through:{r}" for r in sorted({partner_route(c["route"], c["partner"]) for c in ac})],
+                *[f"alive:partner={p}" for p in PARTNERS], *[f"alive:axes={a}+{b}" for a in ALIVE_WHERES for b in ALIVE_WHERES],
+                "alive:two-figures-two-axes", "alive:first-chart-shows-its-stable-poles-after-second",
+                "alive:first-chart-shows-its-unstable-poles-after-second", "alive:first-chart-shows-its-curves-after-second",
+                "alive:both-charts-of-one-algorithm-object", "alive:tables-of-first-chart-unchanged")
     ctx.require(*[f"axes={w}:agree" for w in WHERES], *[f"axes-supplied-as:{f}" for f in FORMS], "other-axes-stay-empty",
                 *[f"axes={w}:unstable-markers-on-supplied-axes" for w in SUPPLIED], *[f"axes={w}:curves-on-supplied-axes" for w in SUPPLIED],
                 "tables-unchanged-after-drawing")
@@ -1052,8 +1407,13 @@ def replay(case):
     case = dict(case)
     if case.get("freqlim") is not None:
         case["freqlim"] = tuple(case["freqlim"])
+    for k in ("freqlim_b",):
+        if case.get(k) is not None:
+            case[k] = tuple(case[k])
     if case["kind"] == "history":
         run_history_case(t, case)          # the replaying process is fresh: no isolation needed
+    elif case["kind"] == "alive":
+        run_alive_case(t, case)
     elif case["kind"] == "table":
         run_table_case(t, case)
     else:
